@@ -10,7 +10,7 @@ for d in /verif/seeded/${1:-*}/; do
   name=$(basename "$d")
   id=$(python3 -c "import json,sys; m=json.load(open('$d/meta.json')); c=m.get('caught_by_quick_checks') or [m['breaks_property']]; print(c[0])" 2>/dev/null) || { echo "$name: no meta"; continue; }
   if ! git apply "$d/patch.diff" 2>/dev/null; then echo "$name: patch does not apply"; continue; fi
-  out=$(cd /verif && timeout 1200 ./check "$id" --tier quick 2>&1); rc=$?
+  out=$(cd /verif && VERIF_NO_NDA=${VERIF_NO_NDA-1} timeout 1200 ./check "$id" --tier quick 2>&1); rc=$?
   git checkout -- .
   echo "$name: $id exit $rc $(echo "$out" | grep -E "signature|INCONCLUSIVE" | head -1 | tr -s ' ')"
 done
